@@ -66,6 +66,9 @@ func runC18(c *core.Ctx, idx int) {
 	var stop atomic.Bool
 	var wg sync.WaitGroup
 	nWrites := 400
+	if c.Tier != core.Thorough {
+		nWrites = 220
+	}
 	// writers
 	for w := 0; w < 2; w++ {
 		wg.Add(1)
